@@ -22,6 +22,7 @@ DEFAULT = {
     "p_condaux": 0.0,         # conditional aux clause on a frame
     "naux": (0, 0),           # aux framers available
     "p_shared_aux": 0.3,
+    "p_aux_inherit": 0.0,
     "p_uncond_go": 0.08,
     "ngo": (0, 2),
     "p_pokes": 0.0,
@@ -173,6 +174,17 @@ def gen_framer(rng, f, name, sched, auxnames, others, slaves, is_aux=False, cond
                     continue
                 used_aux.add(a)
                 plain[fr["name"]].append(a)
+    if f.get("p_aux_inherit"):
+        # a frame names an original aux that one of its ancestors names too: entering it under that ancestor must be
+        # refused while the ancestor owns the aux, whether the ancestor is entered by the same transition or stays entered
+        byname = {x["name"]: x for x in frames}
+        for fr in frames:
+            o = fr.get("over")
+            while o:
+                for a in plain[o]:
+                    if a not in plain[fr["name"]] and rng.random() < f["p_aux_inherit"]:
+                        plain[fr["name"]].append(a)
+                o = byname[o].get("over")
     framer_auxes = sorted(used_aux)
     for fr in frames:
         guarded = (not is_aux or rng.random() < 0.3) and rng.random() < f["p_let"]
